@@ -49,7 +49,7 @@ class Prop(BaseProp):
                     c.tree.files["keeptop.cmake"] = cmake_text("keeptop.cmake")
                 res.count("subdirs_emptied_by_patterns")
             order = fsrun.make_order(rng, rng.choice(fsrun.ORDER_MODES[:4]))
-            fscase.run_case(c, rng, sb, order, res, patterns=pats)
+            fscase.run_case(c, rng, sb, order, res, patterns=pats, allow_extra_input=False)
             if prefix:
                 pass
             wit = fscase.witness(c)
